@@ -63,6 +63,11 @@ FUNCTIONS = [
     ('isotp/protocol.py', 'TransportLayerLogic', '_start_reception_after_first_frame_if_valid'),
     ('isotp/protocol.py', 'TransportLayerLogic', '_stop_sending'),
     ('isotp/protocol.py', 'TransportLayerLogic', '_make_flow_control'),
+    ('isotp/protocol.py', 'TransportLayerLogic', '_process_tx'),
+    ('isotp/protocol.py', 'TransportLayerLogic', 'process'),
+    ('isotp/protocol.py', 'TransportLayerLogic', 'recv'),
+    ('isotp/protocol.py', 'TransportLayerLogic', 'clear_rx_queue'),
+    ('isotp/protocol.py', 'TransportLayerLogic', 'clear_tx_queue'),
     ('isotp/protocol.py', 'TransportLayerLogic', 'send'),
     ('isotp/protocol.py', 'TransportLayerLogic', 'set_address'),
     ('isotp/protocol.py', 'TransportLayerLogic', 'load_params'),
@@ -291,6 +296,10 @@ def expr(n):
         return '(.index %s %s)' % (expr(n.value), expr(s))
     if isinstance(n, ast.Call):
         f = dotted(n.func)
+        if f is None and isinstance(n.func, ast.Attribute) and isinstance(n.func.value, ast.Call) and not n.func.value.args \
+                and not n.func.value.keywords and dotted(n.func.value.func) is not None:
+            # a method of the object returned by an argument-less call: `q.get_nowait().complete(x)` -> callee "q.get_nowait().complete"
+            f = dotted(n.func.value.func) + '().' + n.func.attr
         if f is None:
             raise Unsupported('call of a computed value')
         if n.keywords:
@@ -379,16 +388,26 @@ def stmt(n):
             return '.pass'
         if isinstance(n, ast.Try):
             # only `try: <ONE assignment or expression statement> except Exception [as e]: ...` (no else / finally): see `PStmt.tryExcept`
-            if n.orelse or n.finalbody or len(n.handlers) != 1 or len(n.body) != 1 or not isinstance(n.body[0], (ast.Assign, ast.Expr)):
+            if n.orelse or n.finalbody or len(n.handlers) != 1:
                 raise Unsupported('Try (shape)')
             h = n.handlers[0]
-            if h.type is not None and dotted(h.type) != 'Exception':
-                raise Unsupported('except ' + (dotted(h.type) or '?'))
+            cls = 'Exception' if h.type is None else (dotted(h.type) or '')
+            if not cls:
+                raise Unsupported('except <computed class>')
             pre = [] if h.name is None else ['(.assign %s (.call "__caught__" .nil))' % lstr(h.name)]
             hb = block(h.body)
             for t in reversed(pre):
                 hb = '(.cons %s\n    %s)' % (t, hb)
-            return '(.tryExcept %s %s)' % (block(n.body), hb)
+            if cls == 'Exception' and len(n.body) == 1 and isinstance(n.body[0], (ast.Assign, ast.Expr)):
+                return '(.tryExcept %s %s)' % (block(n.body), hb)       # has a meaning in both semantics
+            # any body, a specific class: meaning in the fuelled semantics (Exec2.lean) only
+            return '(.tryCatch %s %s %s)' % (block(n.body), lstr(cls.split('.')[-1]), hb)
+        if isinstance(n, ast.Break):
+            return '.break_'
+        if isinstance(n, ast.While):
+            if n.orelse:
+                raise Unsupported('while ... else')
+            return '(.while_ %s %s)' % (expr(n.test), block(n.body))
         if isinstance(n, ast.FunctionDef):
             # a nested function definition binds a function object to a local name; its body is not part of this function's behaviour
             return '(.assign %s (.call "__function__" (.cons (.strLit %s) .nil)))' % (lstr(n.name), lstr(n.name))
